@@ -103,7 +103,7 @@ CORPUS_SRC = r'''(def corpus @[])
              (* "E" (error "e"))
              (* "G" (argument 0))
              (* "L" (lenprefix (number (range "09")) 1))
-             (* "I" (int 2) (uint-be 4) (int-be 1) (uint 8))
+             (* "I" (uint 2) (uint 8))
              (* "U" (unref (<- 1 :tag)) (sub "ab" "a") "S" (split "," 1))
              (* "N" (nth 0 (* (<- 1) (<- 1))) (only-tags (<- 1 :t)) (number (some (range "09")) 10 :n))
              (* "T" (til "x" 1) "x"))
@@ -111,6 +111,15 @@ CORPUS_SRC = r'''(def corpus @[])
 (add "peg" peg1 true)
 (add "peg-small" (peg/compile '(* "a" (look 2 "b") (any (set "xyz")) (<- (to -1)))))
 (add "peg-mid" (peg/compile ~{:main (* (some (+ :w :s)) -1) :w (<- (some (range "az" "AZ" "09"))) :s (some (set " \t\n"))}))
+(add "peg-ops" [(peg/compile '(* (constant :k) (constant "s" :tag) (<- 1) (argument 0) (argument 1 :a)))
+                (peg/compile '(* (position) (line) (column) (<- 1 :t) (backref :t) (backmatch :t)))
+                (peg/compile '(+ (replace (<- 1) "r") (accumulate (* (<- 1) (<- 1))) (group (<- 1))))
+                (peg/compile '(* (uint 1) (uint 2) (lenprefix (number 1) 1) (only-tags (<- 1 :x)) (unref (<- 1 :y))))
+                (peg/compile '(* (nth 0 (* (<- 1) (<- 1))) (sub (<- 2) (<- 1)) (split "," (<- 1))))
+                (peg/compile ~(* (cmt (<- 1) ,(fn [x] (string x x))) (/ (<- 1) ,(fn [y] [y])) (% (* (<- 1) (constant "z")))))])
+# signed / big-endian readint rules: Janet 1.38 cannot load these back (the verifier compares the packed operand
+# with the maximum width) - kept as a seed of their own so that the other PEG images stay loadable
+(add "peg-readint" (peg/compile '(* (int 2) (uint-be 4) (int-be 1) (int 8))))
 # 7. integer types, rng
 (add "ints" [(int/s64 "-9223372036854775808") (int/u64 "18446744073709551615") (int/s64 1) (int/u64 255) (int/s64 70000) (math/rng 42)])
 # 8. channels with items
@@ -212,7 +221,7 @@ PRELUDE = r'''# ---- C10 harness (constant part of every plan) ----
   (walk v 0)
   out)
 
-(def peg-texts ["hdaq123,abc,zzz" "" "hdbZ12,B12=12Arep" "a b  c\n" "axyz" "hdcyGg@L3abcI\x01\x02\x03\x04\x05\x06\x07\x08\x09\x0a\x0b\x0c\x0d\x0e\x0f" "T12xN9912"])
+(def peg-texts ["hdaq123,abc,zzz" "" "abcdefgh" "1\x02\x031abc,de,f" "hdbZ12,B12=12Arep" "a b  c\n" "axyz" "hdcyGg@L3abcI\x01\x02\x03\x04\x05\x06\x07\x08\x09\x0a\x0b\x0c\x0d\x0e\x0f" "T12xN9912"])
 
 (defn exercise-passive [v orig mask]
   (when (not= 0 (band mask 1))
@@ -334,7 +343,7 @@ PRELUDE = r'''# ---- C10 harness (constant part of every plan) ----
   (mark "L" i)
   (sim/ev :case i)
   (def res (try [true (if (= 1 (in c 2)) (unmarshal bytes lk) (unmarshal bytes))] ([e] [false e])))
-  (mark "X" i)
+  (mark "X" (string i (if (in res 0) "+" "-")))
   (sim/ev :phase i :exercise (in res 0))
   (if (in res 0)
     (do
@@ -412,7 +421,7 @@ PRELUDE = r'''# ---- C10 harness (constant part of every plan) ----
   (mark "L" i)
   (sim/ev :case i)
   (def res (try [true (asm d)] ([e] [false e])))
-  (mark "X" i)
+  (mark "X" (string i (if (in res 0) "+" "-")))
   (sim/ev :phase i :exercise (in res 0))
   (if (in res 0)
     (do
